@@ -603,6 +603,33 @@ func eqGen(g *G, tier string) []M {
 				ops = append(ops, M{"op": "equalNode", "n": base, "m": other, "kind": "perturbed"})
 				break
 			}
+			if g.Chance(0.06) {
+				// the same text in sibling members: a reference's comment against its authority, a
+				// person's phone against its URL, suppliers against originators
+				at, _ := base["a"].(M)
+				if at == nil {
+					at = M{}
+					base["a"] = at
+				}
+				other := Normalize(base).(M)
+				oa := other["a"].(M)
+				switch g.Int(3) {
+				case 0:
+					at["ExternalReferences"] = []any{M{"u": "https://nvd", "t": 3.0, "c": "NIST"}}
+					oa["ExternalReferences"] = []any{M{"u": "https://nvd", "t": 3.0, "a": "NIST"}}
+				case 1:
+					fld := g.Pick([]string{"Suppliers", "Originators"})
+					at[fld] = []any{M{"n": "ACME", "o": true, "p": "https://acme"}}
+					oa[fld] = []any{M{"n": "ACME", "o": true, "u": "https://acme"}}
+				default:
+					delete(at, "Originators")
+					delete(oa, "Suppliers")
+					at["Suppliers"] = []any{M{"n": "ACME", "o": true}}
+					oa["Originators"] = []any{M{"n": "ACME", "o": true}}
+				}
+				ops = append(ops, M{"op": "equalNode", "n": base, "m": other, "kind": "perturbed"})
+				break
+			}
 			if g.Chance(0.08) {
 				// one person object reachable twice under a supplier (a help desk two contacts share, a
 				// contact listed twice): each occurrence is content
